@@ -15,6 +15,10 @@ Exhaustive sweeps of the domain shared with `datetime`:
              InstantPattern.general / extended_iso (must end in 'Z'; stdlib reads an aware UTC datetime)
   offsets    every whole minute in +/-18 h (plus a seconds alphabet) for OffsetPattern.general_invariant(_with_z)
              against datetime.timezone rendering/reading
+  builtins   EVERY built-in pattern property of the seven pattern classes (found by introspection): ISO shape with the
+             signed -YYYY / 0000 year rule, no information lost below the pattern's own capability (the finest form it
+             writes for a fully detailed value), own reader and stdlib reader agree - over years {min, -43, -1, 0, 1, ...}
+             x times whose minute / second are 0 and whose fraction is 1 ns, 999 ns, 1 us, 999,999 ns, 1 ms, ...
   beyond     years <= 0 (outside the shared domain): sign and width rule '-YYYY', round trip inside the library
 
 Direction matters: text written by the standard library (variable-length fraction, none when zero) is parsed with the
@@ -486,6 +490,189 @@ def offset_worker(part):
 
 
 # ---------------------------------------------------------------------------------------------------------------
+# builtins: every ISO built-in property of the seven pattern classes, found by introspection
+# ---------------------------------------------------------------------------------------------------------------
+
+import pyoda_time.text as _tx  # noqa: E402
+
+PATTERN_CLASSES = {"date": "LocalDatePattern", "time": "LocalTimePattern", "datetime": "LocalDateTimePattern", "instant": "InstantPattern",
+                   "offset": "OffsetPattern", "duration": "DurationPattern", "annual": "AnnualDatePattern"}
+B_TIME_RE = r"(\d\d)(?::(\d\d)(?::(\d\d)(?:\.(\d{1,9}))?)?)?"
+B_DATE_RE = r"(-?\d{4})-(\d\d)-(\d\d)"
+B_RE = {"time": re.compile("^" + B_TIME_RE + "$"), "date": re.compile("^" + B_DATE_RE + r"( \([^)]+\))?$"),
+        "datetime": re.compile("^" + B_DATE_RE + "T" + B_TIME_RE + r"( \([^)]+\))?$"),
+        "instant": re.compile("^" + B_DATE_RE + "T" + B_TIME_RE + "Z$")}
+B_NS = (0, 1, 999, 1_000, 999_999, 1_000_000, 1_000_001, 500_000_000, 123_456_789, 999_999_999)
+B_TIMES = tuple((h, m, sec, ns) for h in (0, 12, 23) for m in (0, 34, 59) for sec in (0, 56, 59) for ns in B_NS)
+B_YEARS = (-9998, -43, -1, 0, 1, 4, 999, 2021, 9999)
+B_DATES = tuple((y, m, d) for y in B_YEARS for (m, d) in ((1, 1), (3, 4), (12, 31), (2, 28)))
+
+
+def builtin_patterns():
+    """[(kind, property name, pattern)] for every public property of the pattern classes' metaclasses that yields an
+    object with format and parse."""
+    out = []
+    for kind, cname in PATTERN_CLASSES.items():
+        cls = getattr(_tx, cname, None)
+        if cls is None:
+            continue
+        names = set()
+        for k in type(cls).__mro__:
+            for a, v in vars(k).items():
+                if isinstance(v, property) and not a.startswith("_"):
+                    names.add(a)
+        for a in sorted(names):
+            try:
+                p = getattr(cls, a)
+            except Exception:  # noqa: BLE001
+                continue
+            if callable(getattr(p, "format", None)) and callable(getattr(p, "parse", None)):
+                out.append((kind, a, p))
+    return out
+
+
+def b_decode(kind, text):
+    """Own decoder of the ISO shapes: ((y, mo, d) | None, (h, mi, s, ns) | None, granularity) or None.
+    granularity: 'h', 'm', 's' or the number of fraction digits; the year must be written as -?YYYY."""
+    m = B_RE[kind].match(text)
+    if not m:
+        return None
+    g = m.groups()
+    date = tm = None
+    gran = None
+    i = 0
+    if kind != "time":
+        date = (int(g[0]), int(g[1]), int(g[2]))
+        i = 3
+    if kind != "date":
+        h, mi, sec, fr = g[i:i + 4]
+        tm = (int(h), int(mi or 0), int(sec or 0), int(fr.ljust(9, "0")) if fr else 0)
+        gran = len(fr) if fr else ("s" if sec is not None else "m" if mi is not None else "h")
+    return date, tm, gran
+
+
+def b_trunc(tm, gran):
+    h, mi, sec, ns = tm
+    if gran == "h":
+        return (h, 0, 0, 0)
+    if gran == "m":
+        return (h, mi, 0, 0)
+    if gran == "s":
+        return (h, mi, sec, 0)
+    unit = 10 ** (9 - gran)
+    return (h, mi, sec, ns - ns % unit)
+
+
+def b_date_text(y, mo, d):
+    return ("-" if y < 0 else "") + "%04d-%02d-%02d" % (abs(y), mo, d)
+
+
+def builtins_worker(idx):
+    acc = Acc()
+    pats = builtin_patterns()
+    kind, name, pat = pats[idx]
+    label = "%s.%s" % (PATTERN_CLASSES[kind], name)
+    acc.note("builtins_found", ["%s.%s" % (PATTERN_CLASSES[k], n) for k, n, _ in pats])
+    if kind in ("offset", "duration", "annual"):
+        from pyoda_time import AnnualDate, Duration
+        vals = ([Offset.from_seconds(x) for x in (0, 1, -1, 3600, -3600, 19800, 64800, -64800, 45296)] if kind == "offset" else
+                [Duration.from_nanoseconds(x) for x in (0, 1, -1, 10**9, -10**9, 86400 * 10**9, -86400 * 10**9 - 1, 90061 * 10**9 + 1_000, 123_456_789)] if kind == "duration" else
+                [AnnualDate(m, d) for m in range(1, 13) for d in (1, 28)] + [AnnualDate(2, 29), AnnualDate(12, 31)])
+        for v in vals:
+            acc.count(states=1, transitions=2, evaluations=1)
+            case = {"builtin": label}
+            t = guard(acc, "C17/builtins/%s/format" % label, case, lambda: pat.format(v))
+            if t is None:
+                continue
+            r = guard(acc, "C17/builtins/%s/parse" % label, dict(case, text=t), lambda: pat.parse(t))
+            if r is not None and not (r.success and r.value == v):
+                acc.violation("C17/builtins/%s/own-text" % label, "%s does not read its own text %r back to the same value" % (label, t), dict(case, text=t))
+            elif kind == "annual" and not re.match(r"^\d\d-\d\d$", t):
+                acc.violation("C17/builtins/%s/shape" % label, "%s text %r is not MM-DD" % (label, t), dict(case, text=t))
+            else:
+                acc.count(nontrivial=1)
+        return acc
+    # --- capability of the pattern: the finest granularity it writes for a fully detailed value
+    probe_t = LocalTime.from_hour_minute_second_nanosecond(23, 59, 59, 123_456_789)
+    probe = {"time": probe_t, "date": LocalDate(2021, 3, 4), "datetime": LocalDate(2021, 3, 4) + probe_t,
+             "instant": Instant.from_utc(2021, 3, 4, 23, 59, 59).plus_nanoseconds(123_456_789)}[kind]
+    ptext = guard(acc, "C17/builtins/%s/format" % label, {"builtin": label}, lambda: pat.format(probe))
+    dec = b_decode(kind, ptext) if ptext is not None else None
+    if dec is None:
+        acc.violation("C17/builtins/%s/shape" % label, "%s writes %r for 2021-03-04T23:59:59.123456789: not an ISO-8601 extended text" % (label, ptext), {"builtin": label})
+        return acc
+    cap = dec[2]
+    acc.note("capability " + label, cap)
+    dates = B_DATES if kind != "time" else ((None, None, None),)
+    times = B_TIMES if kind != "date" else ((None, None, None, None),)
+    for (y, mo, d) in dates:
+        for tm in times:
+            acc.count(states=1)
+            case = {"builtin": label, "value": (y, mo, d) + tuple(tm)}
+            if kind == "time":
+                v = LocalTime.from_hour_minute_second_nanosecond(*tm)
+            elif kind == "date":
+                v = LocalDate(y, mo, d)
+            elif kind == "datetime":
+                v = LocalDate(y, mo, d) + LocalTime.from_hour_minute_second_nanosecond(*tm)
+            else:
+                v = Instant.from_utc(y, mo, d, tm[0], tm[1], tm[2]).plus_nanoseconds(tm[3])
+            t = guard(acc, "C17/builtins/%s/format" % label, case, lambda: pat.format(v))
+            if t is None:
+                continue
+            acc.count(transitions=2, evaluations=2)
+            dec = b_decode(kind, t)
+            exp_t = b_trunc(tm, cap) if kind != "date" else None
+            exp_d = (y, mo, d) if kind != "time" else None
+            yclass = "" if kind == "time" else ("/year<=0" if y <= 0 else "/year>0")
+            if dec is None or (kind != "time" and not t.startswith(b_date_text(y, mo, d))):
+                acc.violation("C17/builtins/%s/shape%s" % (label, yclass),
+                              "%s.format(%s) = %r: not the ISO shape%s" % (label, case["value"], t, "" if kind == "time" else " (date must read %s)" % b_date_text(y, mo, d)), case)
+                continue
+            if dec[0] != exp_d or dec[1] != exp_t:
+                acc.violation("C17/builtins/%s/text-loses-information%s" % (label, yclass),
+                              "%s.format(%s) = %r denotes %s %s, but the pattern can express %s" % (label, case["value"], t, dec[0], dec[1], exp_t), case)
+                continue
+            # the library reads its own text back to that value
+            r = guard(acc, "C17/builtins/%s/parse" % label, dict(case, text=t), lambda: pat.parse(t))
+            if r is not None:
+                ok = r.success
+                if ok:
+                    rv = r.value
+                    if kind == "instant":
+                        rv = rv.in_utc().local_date_time
+                    got_d = (rv.year, rv.month, rv.day) if kind != "time" else None
+                    got_t = (rv.hour, rv.minute, rv.second, rv.nanosecond_of_second) if kind != "date" else None
+                    ok = got_d == exp_d and got_t == exp_t
+                if not ok:
+                    acc.violation("C17/builtins/%s/own-text%s" % (label, yclass), "%s.parse(%r) %s, the text says %s %s" % (
+                        label, t, "fails" if not r.success else "gives another value", exp_d, exp_t), dict(case, text=t))
+                    continue
+            # the standard library reads it (shared domain only)
+            if kind == "time" or 1 <= y <= 9999:
+                iso = t.split(" (")[0]
+                try:
+                    if kind == "time":
+                        back = dt.time.fromisoformat(iso)
+                        want = dt.time(exp_t[0], exp_t[1], exp_t[2], exp_t[3] // 1000)
+                    elif kind == "date":
+                        back = dt.date.fromisoformat(iso)
+                        want = dt.date(y, mo, d)
+                    else:
+                        back = dt.datetime.fromisoformat(iso)
+                        want = dt.datetime(y, mo, d, exp_t[0], exp_t[1], exp_t[2], exp_t[3] // 1000, tzinfo=UTC if kind == "instant" else None)
+                    if back != want:
+                        acc.violation("C17/builtins/%s/stdlib-reads-differently" % label, "%r read by the standard library as %s, expected %s" % (t, back, want), case)
+                        continue
+                except ValueError as e:
+                    acc.violation("C17/builtins/%s/stdlib-rejects" % label, "%r rejected by the standard library: %s" % (t, e), case)
+                    continue
+            acc.count(nontrivial=1)
+    acc.outcome("builtin %s: ISO shape, no information lost below its capability, own and stdlib readers agree" % label, acc.nontrivial)
+    return acc
+
+
+# ---------------------------------------------------------------------------------------------------------------
 # beyond the shared domain: years <= 0
 # ---------------------------------------------------------------------------------------------------------------
 
@@ -559,6 +746,11 @@ def run(ctx):
     if not only or "offsets" in only:
         for acc in pmap(offset_worker, range(4)):
             ctx.merge_part("offsets", acc)
+    if not only or "builtins" in only:
+        n = len(builtin_patterns())
+        ctx.note("builtins_count", n)
+        for acc in pmap(builtins_worker, range(n)):
+            ctx.merge_part("builtins", acc)
     if not only or "beyond" in only:
         for acc in pmap(beyond_worker, [0]):
             ctx.merge_part("beyond", acc)
@@ -581,6 +773,9 @@ def replay(rec) -> bool:
         _fraction_case(a, case["fraction_ns"], 0, case["fraction_ns"] % 1000 == 0)
         _fraction_case(a, case["fraction_ns"], 0, False)
         found.update(a.violations)
+    elif "builtin" in case:
+        for i in range(len(builtin_patterns())):
+            found.update(builtins_worker(i).violations)
     elif "time" in case:
         found.update(time_worker(case["time"][0]).violations)
     elif "datetime" in case:
